@@ -86,38 +86,42 @@ fn self_exe() -> std::path::PathBuf {
 
 /// Determinism self-test: the same run indices, in fresh processes, at several worker counts,
 /// twice each, must give identical per-chunk digest vectors.
-fn determinism_selftest(seed: u64, count: u64) -> Result<(u64, usize, String), String> {
-    let mut reference: Option<String> = None;
+fn determinism_selftest(seed: u64, count: u64, nseeds: u64) -> Result<(u64, usize, String), String> {
     let mut procs = 0usize;
+    let mut first_fold = String::new();
     let configs: [(usize, usize); 3] = [(1, 2), (5, 2), (16, 2)];
-    let mut children = Vec::new();
-    for (w, reps) in configs {
-        for _ in 0..reps {
-            let c = Command::new(self_exe())
-                .args(["digest", "--seed", &seed.to_string(), "--start", "0", "--count", &count.to_string(), "--workers", &w.to_string()])
-                .output();
-            children.push((w, c));
+    for sd in seed..seed + nseeds.max(1) {
+        let mut reference: Option<String> = None;
+        let mut children = Vec::new();
+        for (w, reps) in configs {
+            for _ in 0..reps {
+                let c = Command::new(self_exe())
+                    .args(["digest", "--seed", &sd.to_string(), "--start", "0", "--count", &count.to_string(), "--workers", &w.to_string()])
+                    .output();
+                children.push((w, c));
+            }
         }
-    }
-    for (w, c) in children {
-        let out = c.map_err(|e| format!("spawn: {}", e))?;
-        if !out.status.success() {
-            return Err(format!("digest child (workers={}) failed: {:?} {}", w, out.status, String::from_utf8_lossy(&out.stderr)));
-        }
-        let s = String::from_utf8_lossy(&out.stdout).to_string();
-        procs += 1;
-        match &reference {
-            None => reference = Some(s),
-            Some(r) => {
-                if *r != s {
-                    return Err(format!("event-log digests differ between processes (workers={})", w));
+        for (w, c) in children {
+            let out = c.map_err(|e| format!("spawn: {}", e))?;
+            if !out.status.success() {
+                return Err(format!("digest child (seed={}, workers={}) failed: {:?} {}", sd, w, out.status, String::from_utf8_lossy(&out.stderr)));
+            }
+            let s = String::from_utf8_lossy(&out.stdout).to_string();
+            procs += 1;
+            match &reference {
+                None => reference = Some(s),
+                Some(r) => {
+                    if *r != s {
+                        return Err(format!("event-log digests differ between processes (seed={}, workers={})", sd, w));
+                    }
                 }
             }
         }
+        if sd == seed {
+            first_fold = reference.unwrap_or_default().lines().last().unwrap_or("").to_string();
+        }
     }
-    let r = reference.unwrap_or_default();
-    let fold = r.lines().last().unwrap_or("").to_string();
-    Ok((count, procs, fold))
+    Ok((count, procs, first_fold))
 }
 
 fn cov_json(st: &Stats) -> (J, usize, usize, usize, usize, usize, usize) {
@@ -158,7 +162,7 @@ fn cmd_check(m: &HashMap<String, String>, raw: &[String]) -> i32 {
     let tier = m.get("tier").cloned().or_else(|| std::env::var("VERIF_TIER").ok()).unwrap_or_else(|| "quick".into());
     let tier = if tier == "thorough" { "thorough" } else { "quick" }.to_string();
     let seed = m.get("seed").and_then(|s| s.parse().ok()).or_else(|| std::env::var("VERIF_SEED").ok().and_then(|s| s.parse().ok())).unwrap_or(1u64);
-    let runs = get_u64(m, "runs", if tier == "thorough" { 200_000_000 } else { 2_000_000 });
+    let runs = get_u64(m, "runs", if tier == "thorough" { 600_000_000 } else { 2_000_000 });
     let cfg = supervise::SuperviseCfg {
         seed,
         runs,
@@ -176,13 +180,14 @@ fn cmd_check_inner(m: &HashMap<String, String>) -> i32 {
     let tier = m.get("tier").cloned().or_else(|| std::env::var("VERIF_TIER").ok()).unwrap_or_else(|| "quick".into());
     let tier = if tier == "thorough" { "thorough" } else { "quick" };
     let seed = m.get("seed").and_then(|s| s.parse().ok()).or_else(|| std::env::var("VERIF_SEED").ok().and_then(|s| s.parse().ok())).unwrap_or(1u64);
-    let default_runs = if tier == "thorough" { 200_000_000 } else { 2_000_000 };
+    let default_runs = if tier == "thorough" { 600_000_000 } else { 2_000_000 };
     let runs = get_u64(m, "runs", default_runs);
     let workers = get_u64(m, "workers", std::thread::available_parallelism().map(|n| n.get() as u64).unwrap_or(16)) as usize;
     let evidence = m.get("evidence").cloned().unwrap_or_else(|| "/verif/evidence/C18.json".into());
     let replays = m.get("replays").cloned().unwrap_or_else(|| "/verif/replays".into());
     let known_path = m.get("known").cloned().unwrap_or_else(|| "/verif/known_findings.json".into());
     let det_runs = get_u64(m, "det-runs", if tier == "thorough" { 20_480 } else { 2_048 });
+    let det_seeds = get_u64(m, "det-seeds", if tier == "thorough" { 4 } else { 1 });
     println!("C18 check: tier={} VERIF_SEED={} runs={} workers={}", tier, seed, runs, workers);
     let t0 = Instant::now();
 
@@ -215,9 +220,9 @@ fn cmd_check_inner(m: &HashMap<String, String>) -> i32 {
     let det = if m.contains_key("no-det") || res.first.is_some() {
         None
     } else {
-        match determinism_selftest(seed, det_runs) {
+        match determinism_selftest(seed, det_runs, det_seeds) {
             Ok(d) => {
-                println!("determinism self-test: {} runs x {} fresh processes (workers 1,5,16, twice each): identical digests ({})", d.0, d.1, d.2);
+                println!("determinism self-test: {} runs x {} fresh processes ({} seed(s) x workers 1,5,16, twice each): identical digests ({})", d.0, d.1, det_seeds, d.2);
                 Some(d)
             }
             Err(e) => {
@@ -232,6 +237,7 @@ fn cmd_check_inner(m: &HashMap<String, String>) -> i32 {
     let synth = Plan {
         kind: 2,
         faulty: false,
+        elem: 0,
         ops: vec![Op::new(OpK::ArrToV), Op::new(OpK::VIntoIter), Op::ab(OpK::Next, 0, 1), Op::new(OpK::NextBack), Op::a(OpK::Observe, 0), Op::new(OpK::Len), Op::new(OpK::Drop)],
     };
     let rt = plan_from_json(&json::parse(&plan_to_json(&synth).pretty()).unwrap_or(J::Null));
@@ -347,6 +353,8 @@ fn cmd_check_inner(m: &HashMap<String, String>) -> i32 {
         ("runs_nontrivial", J::i(st.runs_nontrivial as i64)),
         ("runs_clean_class", J::i((st.runs - st.runs_faulty) as i64)),
         ("runs_faulty_class", J::i(st.runs_faulty as i64)),
+        ("runs_with_wide_element", J::i(st.runs_wide as i64)),
+        ("element_shapes", J::s("Tok: 8 bytes, align 4 (5/6 of vector runs, all matrix runs); Wide16: 16 bytes, align 16, padding in front of the payload (1/6 of vector runs)")),
         ("simulated_steps_executed", J::i(st.ops_exec as i64)),
         ("simulated_steps_skipped_precondition", J::i(st.ops_skipped as i64)),
         ("simulated_time_note", J::s("vek has no clock; simulated time is the number of simulator steps (operations executed)")),
@@ -367,7 +375,7 @@ fn cmd_check_inner(m: &HashMap<String, String>) -> i32 {
         (
             "determinism_selftest",
             match &det {
-                Some(d) => J::obj(vec![("runs", J::i(d.0 as i64)), ("fresh_processes", J::i(d.1 as i64)), ("worker_counts", J::Arr(vec![J::i(1), J::i(5), J::i(16)])), ("identical", J::Bool(true)), ("digest", J::s(d.2.clone()))]),
+                Some(d) => J::obj(vec![("runs", J::i(d.0 as i64)), ("fresh_processes", J::i(d.1 as i64)), ("seeds", J::i(det_seeds as i64)), ("worker_counts", J::Arr(vec![J::i(1), J::i(5), J::i(16)])), ("identical", J::Bool(true)), ("digest", J::s(d.2.clone()))]),
                 None => J::s("skipped (--no-det, or a violation was found: the replay in a fresh process is the reproducibility check then)"),
             },
         ),
@@ -465,7 +473,8 @@ fn cmd_replay(pos: &[String], m: &HashMap<String, String>) -> i32 {
                         println!("{}", l);
                     }
                 }
-                if err.contains("Undefined Behavior") || err.contains("memory leaked") {
+                let c18_diag = err.lines().filter(|l| l.contains("error: ")).any(|l| ["dangling", "use-after-free", "has been freed", "out-of-bounds", "memory leaked", "double free"].iter().any(|k| l.contains(k)));
+                if c18_diag {
                     println!("reproduced: Miri reports an error while interpreting this history");
                     println!("VIOLATION property=C18 replay={}", path);
                     EXIT_VIOLATION
@@ -640,7 +649,8 @@ fn miri_sanitise(p: &Plan) -> Option<Plan> {
         match op.k {
             OpK::MFromFlat | OpK::MFromNested | OpK::MIntoFlat | OpK::MIntoNested => return None,
             OpK::Forget => *op = Op::new(OpK::Drop),
-            OpK::Drop | OpK::TakeCount | OpK::RevTakeDrop => op.f = 0,
+            // drop-panic annotations (F4): their relaxation legitimately abandons elements
+            OpK::Drop | OpK::TakeCount | OpK::RevTakeDrop | OpK::Nth | OpK::NthBack | OpK::Last | OpK::Count => op.f = 0,
             _ => {}
         }
     }
